@@ -35,6 +35,7 @@ def run(ck, tier):
     ck.rule("R-C06-id", "WordId::from_word_chars hashes to_lower(normalized(chars)); WordMap::insert derives the id from the entry's own canonical_spelling; MutableDictionary::contains_exact_word normalises its argument and compares with canonical_spelling")
     ck.rule("R-C06-accept", "in SpellCheck::lint a word is skipped only on paths through the true edge of the dialect predicate and of contains_exact_word(word) or contains_exact_word(to_lower(word)) for that same word; every other path pushes a lint whose span is the word token's span")
     ck.rule("R-C06-dialect", "in cached_suggest_correct_spelling both the list stored in the memo and every returned list are dialect-filtered: retained in place (retain on every path from the fuzzy search) or derived from filter(..), with a predicate that looks up the entry's metadata and compares .dialect with the configured dialect; a cache hit returns what was stored; the lint's suggestions derive from that function")
+    ck.rule("R-C06-exact", "the exact-spelling test compares like with like: the character normalisation (typographic apostrophes -> ') applied to the queried word in MutableDictionary::contains_exact_word is applied to the stored spelling as well - at the comparison or where entries are stored - otherwise a listed word written with a typographic apostrophe can never match its own entry and is reported as misspelt")
     ck.not_decided += ["membership of concrete words (the affix expansion of the 130k-word list is data)", "capitalisation variants accepted by to_lower", "what the fuzzy search returns"]
     p = facts.load()
     byk = fns_by_key(p)
@@ -47,6 +48,8 @@ def run(ck, tier):
     ck.rule("R-C06-union", "the merged dictionary answers contains_exact_word / contains_word as the union of its parts: each folds the same-named query over self.children (rule instances of R-C15-merged) - otherwise a spelling the user added is still reported when an earlier part knows the same letters in another capitalisation")
     c15._merged(ck, p, c15.dictionary_impls(p), rule="R-C06-union", only=["contains_word", "contains_exact_word"])
     c15.add_always(ck, p, "R-C06-union")
+    like_with_like(ck, p, byk, "R-C06-exact")
+    dialect_first_wins(ck, p, byk, "R-C06-union")
 
 
 def _id(ck, p, byk):
@@ -85,7 +88,9 @@ def _id(ck, p, byk):
         f = fs[0]
         ck.saw(f)
         pv = Prov(f)
-        nz = [(bi, t) for bi, t in f.calls() if method(t) == "normalized"]
+        nz_all = [(bi, t) for bi, t in f.calls() if method(t) == "normalized"]
+        # the normalisation of the queried word (a second one, on the stored spelling, is R-C06-exact's business)
+        nz = [(bi, t) for bi, t in nz_all if ("arg", 2) in arg_roots(f, pv, t["args"][0]) and "canonical_spelling" not in arg_fields(pv, t["args"][0])]
         gets = [(bi, t) for bi, t in f.calls() if inst_of(t).endswith("word_map::{impl}::get_with_chars")]
         eqs = [(bi, t) for bi, t in f.calls() if def_of(t).endswith("cmp::PartialEq::eq")]
         ok = len(nz) == 1 and len(gets) == 1 and bool(eqs)
@@ -335,3 +340,114 @@ def _put_value_base(f, pv, t):
             break
         l = nxt
     return f.debug_names().get(l)
+
+
+# ---------------------------------------------------------------------------------------------------
+CHAR_NORMALISERS = {"normalized", "to_lower", "to_lowercase", "to_upper", "to_uppercase", "to_ascii_lowercase", "to_ascii_uppercase", "nfc", "nfkc", "nfd", "nfkd"}
+
+
+def like_with_like(ck, p, byk, rule):
+    fs = byk.get("<MutableDictionary as Dictionary>::contains_exact_word")
+    if not ck.anchor(rule, "<MutableDictionary as Dictionary>::contains_exact_word", fs):
+        return
+    f = fs[0]
+    ck.saw(f)
+    pv = Prov(f)
+    cmps = [(bi, t) for bi, t in f.calls() if (def_of(t) or "").endswith("cmp::PartialEq::eq") or (def_of(t) or "").endswith("cmp::PartialEq::ne")]
+    if not ck.anchor(rule, "spelling comparison in contains_exact_word", cmps):
+        return
+    # are entries normalised where they are stored?
+    stored_norm = True
+    n_store = 0
+    for g in p.fns.values():
+        if not g.name.startswith("harper_core::spell::"):
+            continue
+        gv = None
+        for bi, b in enumerate(g.blocks):
+            for sx in b["s"]:
+                if sx["k"] == "assign" and sx["rv"]["k"] == "agg" and str(sx["rv"].get("name", "")).endswith("WordMapEntry"):
+                    gv = gv or Prov(g)
+                    n_store += 1
+                    names = set()
+                    for op in sx["rv"]["ops"]:
+                        names |= {last(norm(o[3] or o[2] or "")) for o in arg_roots(g, gv, op) if o[0] == "call"}
+                    if "normalized" not in names:
+                        stored_norm = False
+    for bi, t in cmps:
+        sides = []
+        for a in t["args"][:2]:
+            fields = set()
+            names = _conversions(f, pv, a, fields=fields) & CHAR_NORMALISERS
+            stored = "canonical_spelling" in fields
+            sides.append((names, stored))
+        key = "<MutableDictionary as Dictionary>::contains_exact_word:like-with-like"
+        q = [n for n, st in sides if not st]
+        s_ = [n for n, st in sides if st]
+        if len(q) != 1 or len(s_) != 1:
+            ck.undecided(rule, key, f.loc(t["ln"]), "comparison operands not recognised as (stored spelling, queried word): %s" % sides)
+            continue
+        missing = q[0] - s_[0]
+        if not missing or (missing == {"normalized"} and stored_norm and n_store):
+            ck.proved(rule, key, f.loc(t["ln"]), "queried word through %s, stored spelling through %s%s" % (sorted(q[0]) or "nothing", sorted(s_[0]) or "nothing", " (entries are normalised where they are stored)" if missing else ""))
+        else:
+            ck.refuted(rule, key, f.loc(t["ln"]), "the queried word goes through %s before the comparison, the stored canonical spelling does not (and the %d places that store entries keep the spelling as given): an entry spelt with a typographic apostrophe (a word added from a document that uses them) never equals its own query, so the word stays reported although the dictionary lists it" % (sorted(missing), n_store))
+
+
+def _conversions(f, pv, op, depth=0, seen=None, fields=None):
+    """names of the value-to-value conversions an operand went through (receiver chain only: the result of a lookup is
+    the stored entry, whatever the key went through)"""
+    seen = set() if seen is None else seen
+    out = set()
+    if fields is not None:
+        fields |= set(arg_fields(pv, op))
+    for o in flatten(pv.trace_operand(op)):
+        if o[0] != "call" or o in seen:
+            continue
+        seen.add(o)
+        t = f.blocks[o[1]]["t"]
+        m = method(t)
+        if m in CHAR_NORMALISERS or m in ("as_ref", "deref", "borrow", "as_slice", "clone", "to_owned", "into", "as_str", "to_vec", "into_owned", "as_mut", "to_smallvec", "iter", "copied", "collect", "map"):
+            out.add(m)
+            if t["args"] and depth < 10:
+                out |= _conversions(f, pv, t["args"][0], depth + 1, seen, fields)
+    return out
+
+
+def dialect_first_wins(ck, p, byk, rule):
+    """membership of the merged dictionary is a union over its parts (R-C06-union) but the entry whose dialect the spell
+    checker tests is the first part's: sibling disagreement between contains_* and get_word_metadata"""
+    fs = byk.get("<MergedDictionary as Dictionary>::get_word_metadata")
+    if not ck.anchor(rule, "<MergedDictionary as Dictionary>::get_word_metadata", fs):
+        return
+    f = fs[0]
+    ck.saw(f)
+    cfg = Cfg(f)
+    pv = Prov(f)
+    key = "MergedDictionary::get_word_metadata:dialect"
+    loops = cfg.natural_loops()
+    first = None
+    for bi, b in enumerate(f.blocks):
+        if b["cleanup"]:
+            continue
+        for sx in b["s"]:
+            if sx["k"] == "assign" and sx["lhs"] == [0] and sx["rv"]["k"] == "agg" and sx["rv"].get("vname") == "Some" and any(cfg.dominates(h, bi) for h in loops):
+                srcs = {last(norm(o[3] or o[2] or "")) for o in flatten(pv.trace_operand(sx["rv"]["ops"][0])) if o[0] == "call"}
+                if "get_word_metadata" in srcs:
+                    first = sx["ln"]
+        t = b["t"]
+        if t["k"] == "call" and t.get("dest") == [0] and method(t) in ("find_map", "find", "next"):
+            first = t["ln"]
+    reads_dialect = False
+    sc = byk.get("<SpellCheck as Linter>::lint")
+    if sc:
+        for h in with_closures(p, sc[0]):
+            for b in h.blocks:
+                for sx in b["s"]:
+                    if sx["k"] == "assign" and "dialect" in repr(sx["rv"]):
+                        reads_dialect = True
+    if first and reads_dialect:
+        ck.refuted(rule, key, f.loc(first), "the merged dictionary answers get_word_metadata with the entry of the first part that knows the letters, and SpellCheck::lint rejects a word whose entry names another dialect: a word the user dictionary lists for every dialect is still reported when the curated list has it for another dialect only (membership is a union over the parts, the dialect is the first part's)")
+    elif first:
+        ck.proved(rule, key, f.span, "first part's entry is returned, but the spell checker does not test its dialect")
+    else:
+        ck.undecided(rule, key, f.span, "get_word_metadata does not return the first part's entry; how it combines the parts' dialects is not decided")
